@@ -148,3 +148,20 @@ op("LEX1-written-exponent", "C01", "LEX1", "lexer.py",
    ("char.lower() == \"e\"", "char == \"e\""))
 op("WSC-LANG-iswsc-drops-comment", "C04", "WSC-LANG", "token.py",
    ("        if self.is_comment():\n            return True\n\n        if self.is_space():", "        if self.is_space():"))
+op("KW-EXCL-pref-keywords", "C08", "KW-EXCL", "decoder.py",
+   ("        agg_keywords = self.grammar.aggregation_keywords.items()\n",
+    "        agg_keywords = (self.grammar.group_pref_keywords, self.grammar.object_pref_keywords)\n"))
+op("DASH-spacing-only", "C03", "DASH", "decoder.py",
+   ("        nodash = re.sub(fr\"-[{fe}][{ws}]*\", \"\", s)", "        nodash = re.sub(fr\"-[{fe}][ \\t]*\", \"\", s)"))
+op("P4-validated-lineno", "C11", "P4", "parser.py",
+   ("        self.lineno = lineno\n        return self", "        self.lineno = int(lineno)\n        return self"))
+op("V4-iterate-module", "C19", "V4", "encoder.py",
+   ("                    for k, v in module.items():\n                        if isinstance(v, self.grpcls):\n                            module[k] = self.objcls(v)",
+    "                    for k, v in module:\n                        if isinstance(v, self.grpcls):\n                            module[k] = self.objcls(v)"))
+op("L1-verdict-in-else", "C20", "L1", "pvl_validate.py",
+   ("            logging.error(f\"End {dialect} load error {filename}\")\n        loads = False\n",
+    "            logging.error(f\"End {dialect} load error {filename}\")\n            loads = False\n"))
+op("I1-range-off-by-one-C09", "C09", "I1", "grammar.py",
+   ("            (14 <= o <= 31)\n", "            (14 <= o <= 30)\n"))
+op("W1-flags-textwrapper", "C02", "W1", "encoder.py",
+   ("                break_long_words=False,\n                break_on_hyphens=False,\n", "                break_long_words=False,\n"))
